@@ -84,3 +84,132 @@ class LocalFlow:
     def derives_only_from(self, e, allowed, stop=()):
         r = self.roots(e, stop=stop)
         return bool(r) and r <= set(allowed)
+
+
+def guarded_writes(node, target, guards=()):
+    """every Assign / AssignOp to `target` (sexp of the place) below `node`, each with the stack of enclosing
+    conditions: [(op, rhs_text, ((cond_text, branch), ...)), ...]; branch is True/False for if, the pattern for match arms"""
+    from facts import children, sexp, strip
+    out = []
+    if isinstance(node, list):
+        for x in node:
+            out += guarded_writes(x, target, guards)
+        return out
+    if not isinstance(node, dict):
+        return out
+    k = node.get("k")
+    if k in ("Assign", "AssignOp") and sexp(strip(node["lhs"])) == target:
+        out.append((node.get("op", "="), sexp(strip(node["rhs"])), guards))
+        return out
+    if k == "If":
+        c = sexp(strip(node["cond"]))
+        out += guarded_writes(node["cond"], target, guards)
+        out += guarded_writes(node["then"], target, guards + ((c, True),))
+        if node.get("else") is not None:
+            out += guarded_writes(node["else"], target, guards + ((c, False),))
+        return out
+    if k == "Match":
+        s = sexp(strip(node["scrut"]))
+        out += guarded_writes(node["scrut"], target, guards)
+        for a in node["arms"]:
+            g = guards + ((s, sexp(a["pat"])),)
+            if a.get("guard") is not None:
+                g = g + ((sexp(strip(a["guard"])), True),)
+            out += guarded_writes(a["body"], target, g)
+        return out
+    for c in children(node):
+        out += guarded_writes(c, target, guards)
+    return out
+
+
+def loop_progress(body, is_progress):
+    """path-sensitive must-analysis over the HIR of a loop body: does every path from the top of the body to a back edge
+    (end of body or `continue`) execute a node for which is_progress(node) holds?  Paths leaving the loop (return, break, `?`)
+    are not constrained.  Returns the list of offending back edges as ('end-of-body' | 'continue', line)."""
+    bad = []
+
+    def seq(nodes, st):
+        for n in nodes:
+            st = ev(n, st)
+            if not st:
+                return st
+        return st
+
+    def ev(n, st):
+        # st: set of bools (progress made so far on some path reaching here); returns the set for the fall-through edge
+        if not st or not isinstance(n, dict):
+            return st
+        k = n.get("k")
+        if k == "Closure":
+            return st
+        if k in ("Ret", "Break"):
+            if n.get("e") is not None:
+                ev(n["e"], st)
+            return set()
+        if k == "Continue":
+            if False in st:
+                bad.append(("continue", n.get("l")))
+            return set()
+        if k == "If":
+            s = ev(n["cond"], st)
+            a = ev(n["then"], s)
+            b = ev(n["else"], s) if n.get("else") is not None else s
+            return a | b
+        if k == "Match":
+            s = ev(n["scrut"], st)
+            out = set()
+            for arm in n["arms"]:
+                s2 = ev(arm["guard"], s) if arm.get("guard") is not None else s
+                out |= ev(arm["body"], s2)
+            return out
+        if k == "Let":
+            s = ev(n["init"], st) if n.get("init") is not None else st
+            if n.get("els") is not None:
+                ev(n["els"], s)
+            return s
+        if k in ("While", "For", "Loop"):
+            # an inner loop may run zero times; its own continue/break edges are its own
+            inner = []
+            s = st
+            for key in ("cond", "iter"):
+                if n.get(key) is not None:
+                    s = ev(n[key], s)
+            sub = loop_progress_states(n["body"], s, is_progress)
+            return s | sub
+        if k == "Binary" and n.get("op") in ("&&", "||"):
+            s = ev(n["a"], st)
+            return s | ev(n["b"], s)
+        if k == "Try":
+            return ev(n["e"], st) if isinstance(n.get("e"), dict) else st
+        if k == "Block":
+            s = seq(n.get("stmts", []), st)
+            if n.get("e") is not None:
+                s = ev(n["e"], s)
+            r = s
+        else:
+            from facts import children
+            r = seq(list(children(n)), st)
+        if is_progress(n) and r:
+            return {True}
+        return r
+
+    end = ev(body, {False})
+    if False in end:
+        bad.append(("end-of-body", body.get("l")))
+    return bad
+
+
+def loop_progress_states(body, st, is_progress):
+    """fall-through states of an inner loop body (used by loop_progress for nested loops): progress inside a nested loop
+    counts only if it happens on every path of one of its iterations, and the loop may not run at all"""
+    marks = set(st)
+    found = [False]
+
+    def probe(n):
+        if is_progress(n):
+            found[0] = True
+        return False
+    from facts import walk
+    for x in walk(body):
+        probe(x)
+    return marks | ({True} if found[0] else set())
